@@ -1,7 +1,7 @@
 (* C12 — containment follows the PostgreSQL @> rules, using the same equality as compare. *)
 From Coq Require Import List NArith ZArith Bool.
 Import ListNotations.
-From JB Require Import Constants Bytes Num Value Order Contain MiscProofs.
+From JB Require Import Constants Bytes Num Value Order Contain MiscProofs ContainProofs.
 Open Scope N_scope.
 
 (* scalars contain only equals, and "equal" is the equality compare reports *)
@@ -15,3 +15,13 @@ Theorem C12_array_contains_bare_scalar :
   forall l b, is_scalar b = true -> contains_t (VArr l) b = existsb (fun x => value_eqb x b) l.
 Proof. exact contains_array_scalar. Qed.
 Print Assumptions C12_array_contains_bare_scalar.
+
+(* containment is reflexive on every value whose object keys are unique (every value the library builds) ... *)
+Theorem C12_reflexive : forall v, wf_shape v = true -> contains_t v v = true.
+Proof. exact contains_refl. Qed.
+Print Assumptions C12_reflexive.
+
+(* ... and transitive on all values, with no side condition *)
+Theorem C12_transitive : forall c b a, contains_t b c = true -> contains_t a b = true -> contains_t a c = true.
+Proof. exact contains_trans. Qed.
+Print Assumptions C12_transitive.
